@@ -1,6 +1,7 @@
 package main
 
 import (
+	"sort"
 	"fmt"
 	"go/ast"
 	"go/token"
@@ -112,7 +113,8 @@ func (ex *Exec) execCommon(st *State, c *ssa.CallCommon, site ssa.Value, pos tok
 			evalArgs()
 			rs := ex.pureCall(st, name, sig, args)
 			if name == "fmt.Errorf" || name == "errors.New" {
-				vc.assume(st.guard, Not(Eq(rs[0], T{"VNil", SVal})))
+				// a non-nil error of an unexported library type (type id 0 is never given to a program type)
+				vc.assume(st.guard, And(Not(Eq(rs[0], T{"VNil", SVal})), mk(SBool, "(_ is VRef)", rs[0]), Eq(mk(SInt, "vtP", rs[0]), IntLit(0)), Gt(mk(SInt, "vref", rs[0]), IntLit(0))))
 			}
 			return rs
 		}
@@ -142,6 +144,31 @@ func (ex *Exec) execCommon(st *State, c *ssa.CallCommon, site ssa.Value, pos tok
 		return ex.havocResults(st, sig, "r."+mname)
 	}
 	// call of a function value (closure, callback)
+	if cf := ex.localClosure(c.Value); cf != nil {
+		// a closure defined in this very function: it can write at most what its body (and the contracted
+		// functions it calls) syntactically writes; havoc exactly that instead of everything.
+		ms := ex.funcModSet(cf)
+		if !ms.all && len(ms.pkgs) == 0 {
+			syn := &Contract{Name: cf.Name() + " (closure write set)", Pkg: ex.fn.Pkg.Pkg.Path()}
+			var hs []string
+			for h := range ms.heaps {
+				hs = append(hs, h)
+			}
+			sort.Strings(hs)
+			mc := &ModClause{src: "closure " + cf.Name()}
+			for _, h := range hs {
+				mc.heaps = append(mc.heaps, h)
+				mc.sorts = append(mc.sorts, ms.heaps[h])
+			}
+			syn.Modifies = []*ModClause{mc}
+			if ms.maps {
+				syn.Modifies = append(syn.Modifies, &ModClause{allMaps: true, src: "closure maps"})
+			}
+			ex.applyModifies(st, ex.specEnv(st, ex.entry, false), syn)
+			vc.note("call of local closure %s: havoc of its syntactic write set %v", cf.Name(), hs)
+			return ex.havocResults(st, sig, "r."+cf.Name())
+		}
+	}
 	if ex.con != nil && ex.con.CallbackPure {
 		vc.note("function-value calls assumed not to touch modelled state (contract option callbacks_pure)")
 		return ex.havocResults(st, sig, "r.fv")
@@ -194,6 +221,15 @@ func (ex *Exec) pureCall(st *State, name string, sig *types.Signature, args []T)
 			ex.assumeTypeInv(st, r, rt)
 		}
 		rs = append(rs, r)
+		if (name == "strings.ToUpper" || name == "strings.ToLower") && len(sorts) == 1 && !vc.declSet["ax:case-len:"+fname] {
+			// library fact: case mapping keeps the byte length of an all-ASCII string (it does not for some
+			// non-ASCII runes, e.g. U+0131), and the result is all-ASCII again
+			vc.declSet["ax:case-len:"+fname] = true
+			vc.declareASCII()
+			vc.axiom(fmt.Sprintf("(forall ((s Str)) (! (=> (gs.ascii s) (and (= (gs.len (%s s)) (gs.len s)) (gs.ascii (%s s)))) :pattern ((%s s))))", fname, fname, fname))
+			vc.axiom(fmt.Sprintf("(= (%s gs.empty) gs.empty)", fname))
+			vc.assumed["strings.ToUpper/ToLower keep the byte length of all-ASCII strings"] = true
+		}
 	}
 	vc.assumed["pure (deterministic, side-effect free): "+name] = true
 	return rs
@@ -423,6 +459,22 @@ func (ex *Exec) callByContract(st *State, callee *ssa.Function, con *Contract, a
 		o := vc.oblige("pre", fmt.Sprintf("pre:%s->%s#%s", ex.conName(), con.Name, label), st.guard, t, ex.pos(pos))
 		o.SetNote(r.Src)
 		vc.assume(st.guard, t)
+	}
+	if callee == ex.fn || (con.RecGroup != "" && ex.con != nil && ex.con.RecGroup == con.RecGroup) {
+		// (mutual) recursion: the callee's variant at the call must be below the caller's variant at its entry
+		if con.Decreases == nil || ex.con == nil || ex.con.Decreases == nil {
+			ex.vc.note("recursive call of %s without a decreases clause: termination not proved", con.Name)
+		} else {
+			vCall, err1 := env.eval(con.Decreases.Expr)
+			envE := ex.specEnv(ex.entry, ex.entry, true)
+			vEntry, err2 := envE.eval(ex.con.Decreases.Expr)
+			if err1 != nil || err2 != nil {
+				ex.fail("decreases %q: %v %v", con.Decreases.Src, err1, err2)
+			} else {
+				o := vc.oblige("decr", fmt.Sprintf("decr:%s/recursion", con.Name), st.guard, And(Ge(vCall.t, IntLit(0)), Lt(vCall.t, vEntry.t)), ex.pos(pos))
+				o.SetNote("decreases " + con.Decreases.Src)
+			}
+		}
 	}
 	for _, h := range con.HeldAtEntry {
 		key, err := env.lockKey(h)
